@@ -107,6 +107,12 @@ def _compare(out, cands, w, l, E_sets, rankings):
     js = _json.loads(_json.dumps(js))   # as read from the assertion file: equal strings, not the library's constant objects
     asn = Assertion.make_assertions_from_json(contest=con, candidates=list(cands), json_assertions=js)
     keys = list(asn.keys())
+    # the cards also carry a second ranked contest with the same candidate identifiers (candidates are numbered per
+    # contest in real exports), ranked the other way round, and its assertions are evaluated on the card first
+    con2 = Contest.from_dict({"id": "K2", "name": "K2", "risk_limit": 0.05, "cards": 100, "choice_function": "IRV", "n_winners": 1,
+                              "candidates": list(cands), "winner": [w], "audit_type": "POLLING", "test": NonnegMean.alpha_mart,
+                              "use_style": True})
+    asn2 = Assertion.make_assertions_from_json(contest=con2, candidates=list(cands), json_assertions=_json.loads(_json.dumps(js)))
     gen = [NEBAssertion("K", w, l)] + [NENAssertion("K", w, l, list(E)) for E in E_sets]
     if not out.expect(len(keys) == len(gen), "json-assertion-count", lambda: (keys, len(gen))):
         return 0, False
@@ -121,6 +127,10 @@ def _compare(out, cands, w, l, E_sets, rankings):
         rc_variants = [rc, {"K": {c: rc["K"][c] for c in cands if c in rc["K"]}}]
         for vi, votes in enumerate(variants):
             cv = CVR(id="x", votes={"K": votes})
+            if vi == 0 and len(r) >= 2:
+                cv = CVR(id="x", votes={"K2": {c: len(r) - i for i, c in enumerate(r)}, "K": votes})
+                for a2 in asn2.values():
+                    a2.assorter.assort(cv)
             for k, a in zip(keys, gen):
                 want = (a.is_vote_for_winner(rc) - a.is_vote_for_loser(rc) + 1) / 2
                 got = asn[k].assorter.assort(cv)
